@@ -1,0 +1,172 @@
+//go:build verif
+
+package main
+
+// Case-file driven driver for the verification harness (property C11): calls the unexported
+// getSegmentStartsFromVideo / getSegmentIntervals on sample tables given as text and writes the
+// observables (values and outcome class ok|err|panic, never error strings) back as text.
+//
+// Input  ($C11_CASES), one case per line:  S <id> <segDurMS> <track>;<track>...
+//   track = <v|a>,<timescale>,<stsz sample count>,<stts c*d.c*d|->,<stss n.n|-|x>,<ctts c*o.c*o|-|x>
+//   ("x" = box absent, "-" = box present with no entries)
+// Output ($C11_OUT): the input line + <starts> <intervals>
+//   starts    = panic | ok:<timescale>:<nr>/<dts>/<pts>,...   ("ok:<timescale>:-" when empty)
+//   intervals = "-" when starts panicked, else per track, joined by ";": panic | err | ok:<s>-<e>,... | ok:-
+
+import (
+	"bufio"
+	"fmt"
+	"os"
+	"strconv"
+	"strings"
+	"testing"
+
+	"github.com/Eyevinn/mp4ff/mp4"
+)
+
+func c11ParseTrack(s string) *mp4.TrakBox {
+	f := strings.Split(s, ",")
+	if len(f) != 6 {
+		panic("bad track: " + s)
+	}
+	u32 := func(x string) uint32 {
+		v, err := strconv.ParseUint(x, 10, 32)
+		if err != nil {
+			panic(err)
+		}
+		return uint32(v)
+	}
+	hdlr := "soun"
+	if f[0] == "v" {
+		hdlr = "vide"
+	}
+	stbl := &mp4.StblBox{Stts: &mp4.SttsBox{}, Stsz: &mp4.StszBox{SampleNumber: u32(f[2])}}
+	if f[3] != "-" {
+		for _, e := range strings.Split(f[3], ".") {
+			p := strings.Split(e, "*")
+			stbl.Stts.SampleCount = append(stbl.Stts.SampleCount, u32(p[0]))
+			stbl.Stts.SampleTimeDelta = append(stbl.Stts.SampleTimeDelta, u32(p[1]))
+		}
+	}
+	if f[4] != "x" {
+		stbl.Stss = &mp4.StssBox{}
+		if f[4] != "-" {
+			for _, e := range strings.Split(f[4], ".") {
+				stbl.Stss.SampleNumber = append(stbl.Stss.SampleNumber, u32(e))
+			}
+		}
+	}
+	if f[5] != "x" {
+		stbl.Ctts = &mp4.CttsBox{}
+		var counts []uint32
+		var offs []int32
+		if f[5] != "-" {
+			for _, e := range strings.Split(f[5], ".") {
+				p := strings.Split(e, "*")
+				o, err := strconv.ParseInt(p[1], 10, 32)
+				if err != nil {
+					panic(err)
+				}
+				counts = append(counts, u32(p[0]))
+				offs = append(offs, int32(o))
+			}
+		}
+		_ = stbl.Ctts.AddSampleCountsAndOffset(counts, offs)
+	}
+	return &mp4.TrakBox{Mdia: &mp4.MdiaBox{
+		Hdlr: &mp4.HdlrBox{HandlerType: hdlr},
+		Mdhd: &mp4.MdhdBox{Timescale: u32(f[1])},
+		Minf: &mp4.MinfBox{Stbl: stbl},
+	}}
+}
+
+func c11Starts(f *mp4.File, segDurMS uint32) (ts uint32, sps []syncPoint, panicked bool) {
+	defer func() {
+		if r := recover(); r != nil {
+			panicked = true
+		}
+	}()
+	ts, sps = getSegmentStartsFromVideo(f, segDurMS)
+	return ts, sps, false
+}
+
+func c11Intervals(ts uint32, sps []syncPoint, trak *mp4.TrakBox) (res string) {
+	defer func() {
+		if r := recover(); r != nil {
+			res = "panic"
+		}
+	}()
+	ivs, err := getSegmentIntervals(ts, sps, trak)
+	if err != nil {
+		return "err"
+	}
+	if len(ivs) == 0 {
+		return "ok:-"
+	}
+	parts := make([]string, len(ivs))
+	for i, iv := range ivs {
+		parts[i] = fmt.Sprintf("%d-%d", iv.startNr, iv.endNr)
+	}
+	return "ok:" + strings.Join(parts, ",")
+}
+
+func TestVerifDriver(t *testing.T) {
+	inPath, outPath := os.Getenv("C11_CASES"), os.Getenv("C11_OUT")
+	if inPath == "" || outPath == "" {
+		t.Skip("C11_CASES / C11_OUT not set")
+	}
+	in, err := os.Open(inPath)
+	if err != nil {
+		t.Fatal(err)
+	}
+	defer in.Close()
+	outF, err := os.Create(outPath)
+	if err != nil {
+		t.Fatal(err)
+	}
+	defer outF.Close()
+	w := bufio.NewWriterSize(outF, 1<<20)
+	defer w.Flush()
+	// the functions under test print to stdout; keep the test log small
+	devnull, err := os.OpenFile(os.DevNull, os.O_WRONLY, 0)
+	if err == nil {
+		saved := os.Stdout
+		os.Stdout = devnull
+		defer func() { os.Stdout = saved; devnull.Close() }()
+	}
+	sc := bufio.NewScanner(in)
+	sc.Buffer(make([]byte, 1<<20), 1<<26)
+	for sc.Scan() {
+		line := sc.Text()
+		f := strings.Split(line, "\t")
+		if len(f) != 4 || f[0] != "S" {
+			continue
+		}
+		d, err := strconv.ParseUint(f[2], 10, 32)
+		if err != nil {
+			t.Fatal(err)
+		}
+		file := &mp4.File{Moov: &mp4.MoovBox{}}
+		for _, ts := range strings.Split(f[3], ";") {
+			file.Moov.Traks = append(file.Moov.Traks, c11ParseTrack(ts))
+		}
+		ts, sps, panicked := c11Starts(file, uint32(d))
+		if panicked {
+			fmt.Fprintf(w, "%s\tpanic\t-\n", line)
+			continue
+		}
+		sp := make([]string, len(sps))
+		for i, p := range sps {
+			sp[i] = fmt.Sprintf("%d/%d/%d", p.sampleNr, p.decodeTime, p.presTime)
+		}
+		spStr := "-"
+		if len(sp) > 0 {
+			spStr = strings.Join(sp, ",")
+		}
+		ivs := make([]string, len(file.Moov.Traks))
+		for i, trak := range file.Moov.Traks {
+			ivs[i] = c11Intervals(ts, sps, trak)
+		}
+		fmt.Fprintf(w, "%s\tok:%d:%s\t%s\n", line, ts, spStr, strings.Join(ivs, ";"))
+	}
+}
